@@ -88,6 +88,33 @@ func valJSON(v value.Type) any {
 	return M{"k": "unknown", "txt": v.String()}
 }
 
+// valSig is a short signature of a value, computed the same way by CalcVM.tla (Sig): enough to tell which value an
+// instruction fetched without carrying the value: n | i<decimal> | bt | bf | s<length> | a<length> | f | x (float).
+func valSig(v value.Type) string {
+	if v.IsNil() {
+		return "n"
+	}
+	if i, ok := v.ToInt(); ok {
+		return "i" + strconv.Itoa(i)
+	}
+	if b, ok := v.ToBool(); ok {
+		if b {
+			return "bt"
+		}
+		return "bf"
+	}
+	if s, ok := v.ToString(); ok {
+		return "s" + strconv.Itoa(len([]rune(s)))
+	}
+	if a, ok := v.ToArray(); ok {
+		return "a" + strconv.Itoa(len(a))
+	}
+	if _, ok := v.ToFunction(); ok {
+		return "f"
+	}
+	return "x"
+}
+
 func astList(l node.List) []any {
 	r := []any{}
 	for _, e := range l.Elems {
